@@ -289,7 +289,7 @@ def worker(ctx):
         return t
 
     n = ctx.n(24000, 400000) // ctx.nworkers + 1
-    ctx.run_hypothesis(make_prog, n, replay_fn=replay_case)
+    ctx.run_hypothesis(make_prog, n, replay_fn=replay_case, share=0.7)
     ctx.run_hypothesis(make_fonts, n // 6, replay_fn=replay_case)
     for d in drvs.values():
         try:
